@@ -2143,3 +2143,39 @@ def rule_substitution_input_is_the_declaration(ctx, rep: Report, rid="S15"):
                     f"template parameters again", f"{mi.rel}:{c.lineno}")
     if n < 8:
         raise AnalysisError(f"{rep.prop}/{rid}: only {n} calls of the substitution primitives found")
+
+
+def rule_explicit_template_arguments_by_evaluation(ctx, rep: Report, rid="B14"):
+    """The callee a binding names carries the explicit template arguments of the instantiation as C++ types, template arguments
+    of those types included: `consume<std::vector<double>>`.  Decided by running `to_cpp()` of the instantiated method, static
+    method and free function (the analyser's own interpreter, the parser's own Typename) on an instantiation with a plain, a
+    namespaced and a templated argument; the three siblings have to give the same, complete spelling."""
+    from .rules_matlab import SampleObj, _PathEval, _Raised, mini_exec, program_classes
+    prog = ctx.prog
+    classes = program_classes(prog, ["Typename", "Type", "InstantiatedMethod", "InstantiatedStaticMethod", "InstantiatedGlobalFunction"])
+
+    def tn(name, ns=(), inst=()):
+        return SampleObj(__kind__="Typename", name=name, namespaces=list(ns), instantiations=list(inst))
+    want = "consume<double,gtsam::Pose3,std::vector<gtsam::Point2>,gtsam::PinholeCamera<gtsam::Cal3Bundler>>"
+    got = {}
+    for k in ("InstantiatedMethod", "InstantiatedStaticMethod", "InstantiatedGlobalFunction"):
+        ci = prog.cls(k)
+        if ci is None or k not in classes or not isinstance(classes[k].get("to_cpp"), ast.FunctionDef):
+            continue
+        insts = [tn("double"), tn("Pose3", ["gtsam"]), tn("vector", ["std"], [tn("Point2", ["gtsam"])]), tn("PinholeCamera", ["gtsam"], [tn("Cal3Bundler", ["gtsam"])])]
+        orig = SampleObj(__kind__="GlobalFunction", name="consume", template=SampleObj(__kind__="Template", typenames=["A", "B", "C", "D"]))
+        obj = SampleObj(__kind__=k, __bases__=list(classes[k].get("__bases__", ())), original=orig, instantiations=insts, name="consumeX", template="")
+        try:
+            got[k] = (mini_exec(classes[k]["to_cpp"], {"self": obj}, budget=20000, classes=classes), ci)
+        except (_PathEval.Unknown, _Raised, TypeError, KeyError, AttributeError):
+            continue
+    rep.units["to_cpp_siblings_evaluated"] = len(got)
+    if not got:
+        rep.add(rid, "to_cpp of instantiated callables evaluated on a sample instantiation", True, "not evaluable", "gtwrap/template_instantiator:0", nontrivial=False)
+        return
+    for k, (text, ci) in sorted(got.items()):
+        fn = ci.methods.get("to_cpp") or next(c.methods["to_cpp"] for c in prog.mro(ci) if "to_cpp" in c.methods)
+        rep.add(rid, f"explicit template arguments:{k}.to_cpp:every argument spelled as its complete C++ type", isinstance(text, str) and text.replace(" ", "") == want,
+                f"for `consume` instantiated with (double, gtsam::Pose3, std::vector<gtsam::Point2>, gtsam::PinholeCamera<gtsam::Cal3Bundler>) the callee is spelled "
+                f"`{text}`, the declared instantiation is `{want}`: the binding calls another instantiation than the one it was generated for (or none that exists)",
+                f"{ci.mod.rel}:{fn.lineno}")
